@@ -148,9 +148,11 @@ async def run_client_case(case):
     ans = case["answer"]
     kind = ans["kind"]
     timeout = case.get("timeout")
-    c2s_s, c2s_r = anyio.create_memory_object_stream(64)
+    busy = case.get("backpressure")           # the peer takes nothing off the wire for this long after answering
+    c2s_s, c2s_r = anyio.create_memory_object_stream(0 if busy else 64)   # 0 = rendezvous: a send completes when taken
     s2c_s, s2c_r = anyio.create_memory_object_stream(64)
     obs = {"first": None, "before": [], "between": [], "after": [], "outcome": None, "tracked": None}
+    state = {"call_done": False}
 
     async def peer():
         req = await c2s_r.receive()
@@ -172,6 +174,15 @@ async def run_client_case(case):
         msg = build_answer(ans, rid)
         if msg is not None:
             await s2c_s.send(msg)
+        if busy:
+            await anyio.sleep(busy)
+            with anyio.move_on_after(busy + 5.0):
+                while True:
+                    try:
+                        m = await c2s_r.receive()
+                    except (anyio.EndOfStream, anyio.ClosedResourceError, anyio.BrokenResourceError):
+                        break
+                    (obs["after"] if state["call_done"] else obs["between"]).append(describe_written(m))
 
     kwargs = {"supported_versions": None if case["supported"] is None else list(case["supported"]),
               "preferred_version": case["preferred"]}
@@ -193,9 +204,10 @@ async def run_client_case(case):
             obs["outcome"] = ["ok", pv] if isinstance(pv, str) else ["ok-nonstr", repr(pv)]
         except Exception as e:                # noqa: BLE001 - the exception class IS the observation
             obs["outcome"] = classify_exception(e)
-        obs["between"] = drain(c2s_r)         # written after the answer was handed over, before the call ended
-        await anyio.sleep(1.0)
-        obs["after"] = drain(c2s_r)           # written after the call ended
+        state["call_done"] = True
+        obs["between"] += drain(c2s_r)        # written after the answer was handed over, before the call ended
+        await anyio.sleep(1.0 + (2 * busy if busy else 0.0))
+        obs["after"] += drain(c2s_r)          # written after the call ended
         tg.cancel_scope.cancel()
     if client is not None:
         info = client.get_batching_info()
